@@ -205,6 +205,65 @@ CHECKS = {
         note='maildir has no backend-declared read-only mailbox; garbage '
              'collection of UID-list records of already expunged messages by '
              'CHECK is not counted as a change'),
+    'C04': dict(
+        category='exploration', design='4/C04',
+        technique='runtime monitor: offline history checker over every '
+                  'UID-bearing response with call/return steps, keyed by '
+                  '(mailbox lineage, UIDVALIDITY); plus fault enumeration '
+                  '(kill before every filesystem operation, restart) on '
+                  'maildir',
+        text='1-3 sessions on 3 mailboxes issue APPEND/MULTIAPPEND/COPY/MOVE/'
+             'expunge-highest-then-append/STATUS/SELECT/RENAME under '
+             'randomised schedules on dict and maildir(++/fs); checked: no '
+             '(validity, uid) denotes two messages or is assigned twice, '
+             'assignments respect real-time order, UIDNEXT is above '
+             'everything assigned before and not above anything assigned '
+             'later, APPENDUID/COPYUID UIDs are found by UID FETCH with the '
+             'expected content in source->destination order; maildir '
+             'histories are additionally swept over every crash point and a '
+             'post-restart APPEND must exceed every acknowledged UID.',
+        note='UIDVALIDITY random collisions not searched; real-time order '
+             'from loop steps at the client boundary'),
+    'C15': dict(
+        category='fault_enumeration', design='4/C15',
+        technique='fault enumeration with a runtime oracle: fork per crash '
+                  'point, os._exit from the audit hook right before every '
+                  'mutating filesystem operation (and right after every '
+                  'open-for-writing, before its data is flushed), restart a '
+                  'new backend, judge its IMAP dump against the acknowledged-'
+                  'effects log',
+        text='Generated histories of APPEND/MULTIAPPEND/STORE/COPY/MOVE/'
+             'EXPUNGE/CREATE/RENAME/SUBSCRIBE/CHECK on a maildir store '
+             '(layouts ++ and fs; store on the temp filesystem or on '
+             '/dev/shm); EVERY prefix of the filesystem-operation trace is a '
+             'crash point (exhaustive per history) plus the clean stop; '
+             'after restart every acknowledged message must be served with '
+             'identical bytes, acknowledged flags (or the in-flight '
+             "command's) and the same UID unless UIDVALIDITY changed, no UID "
+             'may name another message, nothing unexplained may appear, '
+             'every mailbox must open, acknowledged creations/subscriptions '
+             'persist and the next APPEND gets a higher UID.',
+        note='crash = process death between filesystem operations as seen by '
+             'CPython audit events; not power loss / torn writes; stale lock '
+             'files are aged before the restart'),
+    'C18': dict(
+        category='exploration', design='4/C18',
+        technique='runtime monitor: metamorphic comparison of sibling wire '
+                  'spellings on identically prepared fresh accounts + '
+                  'independent modified-UTF-7 round trip of reported names + '
+                  'parse/serialise round trips on the real parser classes',
+        text='18 command families are sent with every string argument as '
+             'atom/quoted/{n}/{n+}, mixed, keyword case variants (extra '
+             'spaces and bare LF only as "if accepted then identical"); '
+             'responses, follow-up commands and a full state dump from a '
+             'fresh connection must be identical; generated Unicode names '
+             'must come back from LIST/LSUB/STATUS in a spelling that an '
+             'independent strict decoder maps to the same code points; '
+             'QuotedString/LiteralString/AString/String.build/SequenceSet/'
+             'Flag/DateTime/Mailbox values round-trip with exact tails and a '
+             'correct cached raw form.',
+        note='object ids, UIDVALIDITY, \\Recent and LIST order are '
+             'normalised away'),
 }
 
 NOT_YET = 'check not built yet in this round (see DESIGN.md section 4)'
